@@ -328,7 +328,8 @@ def c12(tier, repo=None):
            "known_findings": n_known, "transcription_agreement": res["stat"], "drift": [list(d) for d in res["drift"][:20]],
            "selftest": ser_selftest(lines)}
     vlib.write_evidence("C12", tier, "model_checking", cov, assumptions=[
-        "a panic of Marshal/Unmarshal is not 'returning an error': it is rejected; an error from Unmarshal (after a successful Marshal) counts as failing loudly",
+        "a panic of Marshal/Unmarshal is not 'returning an error': it is rejected; the refusal must come from Marshal: an error from Unmarshal after a "
+        "successful Marshal means a written checkpoint that cannot be read back and is rejected (the nil interface at top level is not a value)",
         "leaf fidelity (numeric ranges, UTF-8, HTML-significant characters) is sampled by a boundary palette, not decided",
         "struct types of the family struct{F T; Z int}: a few are declared and registered through GenericRegister, the others are reflect.StructOf "
         "types entered into the registry maps directly (what GenericRegister does)",
